@@ -121,7 +121,33 @@ def client_body(offer, nat=None, fp=None, version="1.0"):
     return (version + "\n" + json.dumps(d)).encode()
 
 
-def gen(ctx):
+READ_LIMIT = 100000
+
+
+def at_limit_specs(ctx):
+    """legacy bodies (all within the read limit) whose versioned encoding lands on both sides of the limit:
+    (1) offers without a character to escape, sized so that the encoding (offer + version line, field names, NAT type, default
+        fingerprint: 82 bytes + the NAT type) is 99 999 .. 100 0xx bytes; (2) quote / backslash / control-character heavy offers of
+        50-60 KB which JSON escaping grows up to two- and sixfold; (3) offers cycling through all byte values (invalid UTF-8 becomes
+        \ufffd). -> (body, NAT header value or None)"""
+    rng = ctx.rng
+    specs = []
+    for nat, sizes in [(None, [99917, 99918, 99919, 99920, 99950, 100000]), ("restricted", [99908, 99909]), ("unknown", [99911, 99912])]:
+        for n in sizes:
+            specs.append((b"{" + b"y" * (n - 1), nat))
+    heavy = [b'"' * 55000, b"\\" * 52000, b"\x01" * 50000, b'\\"' * 29000, b"\n\t" * 27000]
+    alphabet = [b'"', b"\\", b"\n", b"\r", b"\t", b"\x01", b"\x1f", b"<", b">", b"&", b"\x08", b"\x0c"]
+    for dens in [0.1, 0.2, 0.3, 0.45, 0.6, 0.75, 0.9] * (1 if ctx.tier == "quick" else 6):
+        n = rng.randrange(50000, 60001)
+        heavy.append(b"".join(rng.choice(alphabet) if rng.random() < dens else b"a" for _ in range(n)))
+    for h in heavy:
+        specs.append((b"{" + h, rng.choice([None, "restricted", "unknown", "unrestricted"])))
+    for n in [20000, 30000, 40000, 100000]:
+        specs.append((gbytes(n, 123), rng.choice([None, "restricted"])))
+    return specs
+
+
+def gen(ctx, twinenc=None):
     rng = ctx.rng
     cases = []   # (kind, line, info)
 
@@ -222,6 +248,18 @@ def gen(ctx):
             add("mutated-legacy", http_req("POST", ep, b, {"Snowflake-NAT-Type": rng.choice(["", "unknown", "zz"])}), "none", info=dict(ep="client"))
         else:
             add("mutated", http_req("POST", ep, b), twin, b, info=dict(ep=twin, legacy=0))
+    # the legacy shim at the size limit (C14_legacy_twin / C14_legacy_twin_over_limit): the legacy request and, as a request of
+    # its own, the versioned body the broker shims it into (obtained from the implementation's own encoder: op twinenc)
+    if twinenc is not None:
+        specs = at_limit_specs(ctx)
+        twins = twinenc([(body, (nat or "").encode()) for body, nat in specs])
+        for j, ((body, nat), twin) in enumerate(zip(specs, twins)):
+            over = len(twin) > READ_LIMIT
+            hdr = {} if nat is None else {"Snowflake-NAT-Type": nat}
+            add("legacy-at-limit-" + ("over" if over else "within"), http_req("POST", "/client", body, hdr), "client", twin,
+                info=dict(ep="client", legacy=1, pair=j, side="l", over=over, twin=twin))
+            add("versioned-twin-" + ("over-limit" if over else "within-limit"), http_req("POST", "/client", twin), "none" if over else "client",
+                b"" if over else twin, info=dict(ep="client", legacy=0, toolarge=over, pair=j, side="t", over=over))
     gen_refined(ctx, add, other)
     return cases
 
@@ -427,7 +465,7 @@ def eval_refined(ctx, slines, sinfo):
                     elif options:
                         key = "preflight-not-empty-200"
                     elif info.get("legacy"):
-                        key = "legacy-not-equivalent"
+                        key = "legacy-over-limit-not-per-ipc" if info.get("over") else "legacy-not-equivalent"
                 elif d.get("cors") != md.get("cors"):
                     bad = "CORS headers %s, model %s" % (d.get("cors"), md.get("cors"))
                 elif gb[:4096] != mb[:4096]:
@@ -445,6 +483,57 @@ def eval_refined(ctx, slines, sinfo):
     ctx.rng.shuffle(sample)
     ctx.extra["refined_predictions"] = len(slines)
     return sample[:20]
+
+
+def eval_twin_pairs(ctx, pairs):
+    """C14_legacy_twin and C14_legacy_twin_over_limit on the implementation: the model runs both requests of a pair with the encoder
+    being the implementation's encoding of this very request (op twinpair), so the size hypothesis is the real one. Within the limit
+    the legacy answer must be the image of the twin's; beyond it the legacy request is answered per IPC and the twin 400."""
+    todo = [(j, pr) for j, pr in sorted(pairs.items()) if "l" in pr and "t" in pr and pr["l"][0].get("ipc", "-") not in ("-", "blocked")]
+    if not todo:
+        return
+    lines = []
+    for j, pr in todo:
+        d, info, line, o = pr["l"]
+        m = info["rq"]
+        lines.append("brokerhttp twinpair %s %s %s %s %s %s" % (kv_tok(m["hdrs"]), payload_tok(m["body"]), payload_tok(info["twin"]),
+                                                          d.get("ipc"), d.get("resp", "x"), d.get("dec", "none")))
+    mout = vlib.run_model(lines)
+    n_over = n_within = 0
+    for (j, pr), ml, mo in zip(todo, lines, mout):
+        if mo.startswith("!"):
+            raise RuntimeError("model rejected case line: " + ml[:300])
+        md = brokerlib.parse_obs(mo)
+        (dl, il, linel, ol), (dt, it, linet, ot) = pr["l"], pr["t"]
+        over = md.get("over") == "1"
+        n_over += over
+        n_within += not over
+        ctx.count(ml[:400], kind="legacy-twin-pair-" + ("over-limit" if over else "within-limit"))
+        rep = dict(label="http-twin-pair", case=linel[:6000], case_twin=linet[:6000], impl=ol[:800], impl_twin=ot[:800], model=mo[:800], model_case=ml[:3000])
+        if over != il["over"]:
+            ctx.not_shown("twin pair %d: the model takes the twin (%d bytes) to be %s the read limit, the generator the opposite" % (j, len(il["twin"]), "beyond" if over else "within"))
+            continue
+
+        def differs(d, side):
+            if d.get("status") != md.get(side + "status"):
+                return "status %s, model %s" % (d.get("status"), md.get(side + "status"))
+            gb, mb = unhexb(d.get("body", "x")), unhexb(md.get(side + "body", "x"))
+            if gb[:4096] != mb[:4096]:
+                return "body %r, model %r" % (gb[:100], mb[:100])
+            return None
+        bl, bt = differs(dl, "l"), differs(dt, "t")
+        if over:
+            if bl:
+                ctx.violation("legacy-over-limit-not-per-ipc", "a legacy request within the read limit (%d bytes) whose shimmed body exceeds it (%d bytes) is answered per IPC "
+                              "(C14_legacy_twin_over_limit): %s" % (len(il["rq"]["body"]), len(il["twin"]), bl), rep)
+            if bt:
+                ctx.violation("oversize-body-accepted", "the shimmed body of a legacy request (%d bytes) POSTed directly is beyond the limit and must be a 400: %s" % (len(il["twin"]), bt), rep)
+        elif bl or bt:
+            ctx.violation("legacy-not-equivalent", "legacy request (%d bytes) and its versioned twin (%d bytes, within the limit): legacy %s; twin %s" % (
+                len(il["rq"]["body"]), len(il["twin"]), bl or "as the model", bt or "as the model"), rep)
+    if not n_over or not n_within:
+        ctx.not_shown("legacy shim at the size limit: the generated pairs do not straddle the read limit any more (%d beyond, %d within)" % (n_over, n_within))
+    ctx.extra["twin_pairs"] = dict(over_limit=n_over, within_limit=n_within)
 
 
 def eval_histories(ctx, hist):
@@ -576,7 +665,13 @@ def run_rest(ctx, exe):
                         "net/http framing, MaxBytesReader and the AMP armor are library code: monitored (complete response, connection reusable, server alive), not modelled"]
     ctx.trusted.append("harness/overlay/broker/zz_verif_http_test.go (raw TCP client, real net/http server with the routes of main())")
     ctx.trusted.append("lib/checks/c14live.py (python http.client against the broker binary started from main()); harness/overlay/broker/zz_verif_soak_test.go")
-    cases = gen(ctx)
+    def twinenc(items):
+        rc_, out_, err_ = vlib.run_impl(exe, ["brokerhttp twinenc %s %s" % (payload_tok(b), hx(n)) for b, n in items],
+                                        args=["-test.run", "^TestVerifHttpDriver$"], env=env, timeout=300)
+        if rc_ != 0 or len(out_) != len(items) or not all(o.startswith("len=") for o in out_):
+            raise RuntimeError("driver op twinenc failed rc=%s: %s %s" % (rc_, out_[:2], err_[-400:]))
+        return [unhexb(o.split(" srv=")[0].split(" twin=")[1]) for o in out_]
+    cases = gen(ctx, twinenc)
     cases.sort(key=lambda c: 0 if c[0] == "proxy-rejected-pattern" else 1)   # stable: the rejected polls go first
     lines = [c[1] for c in cases]
     rc, out, err = vlib.run_impl(exe, lines, args=["-test.run", "^TestVerifHttpDriver$"], env=env, timeout=900)
@@ -587,6 +682,7 @@ def run_rest(ctx, exe):
     mlines, minfo = [], []
     slines, sinfo = [], []       # refined model: serve lines
     hist = {}                    # history number -> variant -> (events, results)
+    pairs = {}                   # pair number -> side l|t -> (observation, info, line, output)
     for (kind, line, info), o in zip(cases, out):
         ctx.count(line[:400], kind=kind)
         op = line.split(" ")[1]
@@ -625,6 +721,8 @@ def run_rest(ctx, exe):
             ctx.violation("connection-mishandled", "connection not usable for a following request (%s) [%s]" % (d.get("reuse"), kind), rep)
         if int(d.get("ms", "0")) > 8000:
             ctx.violation("slow-response", "immediate-outcome request took %s ms [%s]" % (d.get("ms"), kind), rep)
+        if "pair" in info and info.get("rq") is not None:
+            pairs.setdefault(info["pair"], {})[info["side"]] = (d, info, line, o)
         st = int(d.get("status", "0"))
         if not (100 <= st <= 599):
             ctx.violation("bad-status", "status %d" % st, rep)
@@ -654,6 +752,7 @@ def run_rest(ctx, exe):
                         slines.append(serve_line("mux", m["method"], m["path"], m["hdrs"], m["body"], snow=[(v[1].encode(), v[2].encode()) for v in e["view"]]))
                         sinfo.append(("history-" + variant, line, r, dict(op="seqreq", rq=m)))
     refined_sample = eval_refined(ctx, slines, sinfo)
+    eval_twin_pairs(ctx, pairs)
     eval_histories(ctx, hist)
     # legacy == versioned through real matches, timeouts and answers: the scenario driver with client modes l / v / a
     scens = [s for s in brokerlib.scenarios(ctx.rng, ctx.tier) if s.kind in ("match-answer", "client-timeout-late-answer", "no-proxies", "incompatible-pool", "early-answer-then-match")]
